@@ -98,6 +98,8 @@ def registry(nxt='all', data='bytes'):
                                       'seg': '(len(old(self._cache_A)) > 0 and len(old(self._cache_A)) + len(assoc_data) >= 16) ==> seg == old(self._cache_A) + bytes(assoc_data)[:filler]',
                                       'split1': '(len(old(self._cache_A)) > 0 and len(old(self._cache_A)) + len(assoc_data) >= 16) ==> bytes(assoc_data) == bytes(assoc_data)[:filler] + bytes(assoc_data)[filler:]',
                                       'split2': '(len(old(self._cache_A)) > 0 and len(old(self._cache_A)) + len(assoc_data) >= 16) ==> bytes(assoc_data)[filler:] == bytes(assoc_data)[filler:][:update_len] + bytes(assoc_data)[filler:][update_len:]',
+                                      'seg_len': '(len(old(self._cache_A)) > 0 and len(old(self._cache_A)) + len(assoc_data) >= 16) ==> len(seg) == 16',
+                                      'seg_whole': '(len(old(self._cache_A)) > 0 and len(old(self._cache_A)) + len(assoc_data) >= 16) ==> seg[:16] == seg',
                                       'fed': '(len(old(self._cache_A)) > 0 and len(old(self._cache_A)) + len(assoc_data) >= 16) ==> %sg_A == old(%sg_A) + seg + bytes(assoc_data)[filler:][:update_len]' % (ST, ST),
                                       'cache': '(len(old(self._cache_A)) > 0 and len(old(self._cache_A)) + len(assoc_data) >= 16) ==> self._cache_A == bytes(assoc_data)[filler:][update_len:]'}},
                      modifies={'self._next': nxt_t(['encrypt', 'decrypt', 'digest', 'verify', 'update']), 'self._cache_A': 'bytes', 'self._state.g_st.g_A': 'bytes'},
